@@ -32,6 +32,7 @@ static int mk_list(void) {
 	g_lold_w = (g_impl.arr != NULL && g_lw < g_impl.arr_size) ? g_impl.arr[g_lw].ptr : NULL;
 	g_lold_v = (g_impl.arr != NULL && g_lv < g_impl.arr_size) ? g_impl.arr[g_lv].ptr : NULL;
 	g_lfree_calls = 0; g_lfree_last = NULL;
+	g_live = 5;
 	return 1;
 }
 
